@@ -46,10 +46,14 @@ Definition rewrap (orig inner' : ty) : ty :=
   | _ => inner'
   end.
 
-(* reflect.StructOf of the final layer (only reached with >= 1 mangler; with
-   none the fields are those of the input type and keep their PkgPath) *)
+(* the end of TranslateType: a duplicate field name in the final layer is an
+   error (fix: commit; reflect.StructOf panicked on it), then reflect.StructOf,
+   which still panics on an unexported name produced by a mangler (only
+   reachable with >= 1 mangler; with none the fields are those of the input
+   type and keep their PkgPath) *)
+Definition dup_name_err : N := 22.
 Definition struct_of (checked : bool) (fs : list sfield) : outcome ty :=
-  if checked && has_dup (map sf_name fs) then Panic 5
+  if has_dup (map sf_name fs) then Err dup_name_err
   else if checked && existsb (fun f => negb (exported (sf_name f))) fs then Panic 6
   else Ok (TStruct (pack fs) []).
 
